@@ -172,7 +172,7 @@ func c04gen(g *gen, tier string, w *bufio.Writer) {
 		n = 800
 	}
 	for i := 0; i < n; i++ {
-		o := dataOpts{v6: true, maxZone: 3, locs: true, maps: true}
+		o := dataOpts{v6: true, maxZone: 3, locs: true, maps: false} // one map per owner (see WellFormed)
 		df := g.genDataFile(o)
 		// the client's location L and a foreign location F
 		L, F := "aa", "ff"
